@@ -331,6 +331,35 @@ func (e *secretExec) step(s *SecStep) {
 				}
 			}
 		}
+	case "kind":
+		// the stored value replaced by something of ANOTHER KIND under the same key (a plain string,
+		// a number, a list ...): reading it as an encrypted value fails, through both getters, for
+		// the right key and for any other
+		subs := []struct {
+			what string
+			v    any
+		}{{"a plain string", "forged value"}, {"the plaintext as a plain string", string(p.Plain) + "."}, {"an integer", int64(7)}, {"a boolean", true}, {"a list", []any{"x"}}, {"a map", map[string]any{"k": "v"}}, {"a float", 1.5}}
+		for _, sub := range subs {
+			m := meta.NewMeta()
+			if err := m.Add("k", sub.v); err != nil {
+				continue
+			}
+			for _, k := range [][]byte{p.Key, bytes.Repeat([]byte{0x33}, 32), nil} {
+				for _, view := range []interface {
+					GetEncryptedString(string, []byte) (string, error)
+					GetEncryptedBytes(string, []byte) ([]byte, error)
+				}{m, m.ReadOnly()} {
+					_, e1 := view.GetEncryptedString("k", k)
+					_, e2 := view.GetEncryptedBytes("k", k)
+					o.Fault("stored_kind_changed")
+					e.sig("kind:"+sub.what, fmt.Sprint(e1 != nil, e2 != nil))
+					if e1 == nil || e2 == nil {
+						o.Violate("C19", "tamper-accepted", fmt.Sprintf("the stored value replaced by %s is returned as decrypted data (string getter error: %v, bytes getter error: %v)", sub.what, e1 != nil, e2 != nil), map[string]string{"where": "kind"})
+						return
+					}
+				}
+			}
+		}
 	case "view":
 		// ONE read-only view held across reads (of a Meta, and of a token): a good read first, then
 		// every bad key; what the first read learnt must not answer for the later ones
@@ -712,6 +741,7 @@ func genSecret(r *Rand, g GenCfg) Plan {
 	p.Steps = append(p.Steps, SecStep{Op: "retain", N: r.Intn(1 << 16)})
 	p.Steps = append(p.Steps, SecStep{Op: "rngfault"})
 	p.Steps = append(p.Steps, SecStep{Op: "view", N: r.Intn(256)})
+	p.Steps = append(p.Steps, SecStep{Op: "kind"})
 	p.Steps = append(p.Steps, SecStep{Op: "extend"})
 	for i := 0; i < 4; i++ {
 		p.Steps = append(p.Steps, SecStep{Op: "otherkey", N: r.Intn(256)})
